@@ -123,6 +123,7 @@ def gen_scenario(rng: random.Random, seed: int, cls: str) -> dict:
         prog = [["begin"]] + pre + burst + [["sleep", rng.choice([0.05, 0.3])], ["commit"], ["abort"], ["begin"],
                                             ["send", rng.randrange(nparts), 1], ["commit"]]
     sc["program"] = prog
+    sc["strict"] = cls in ("plain", "faults", "crash", "crashany")      # only retriable faults are injected in these
     return sc
 
 
@@ -130,12 +131,12 @@ CALLS = {"begin": ["begin"], "send0": ["send", 0, 1], "send1": ["send", 1, 1], "
          "commit": ["commit"], "abort": ["abort"], "exit_ok": ["exit_ok"], "exit_exc": ["exit_exc"],
          "sendU": ["send", 0, 1, "u"]}
 API = ["begin", "send0", "send1", "offsets", "commit", "abort", "exit_ok", "exit_exc"]
-TXN_APIS = ["AddPartitionsToTxn", "AddOffsetsToTxn", "TxnOffsetCommit", "EndTxn", "Produce"]
+TXN_APIS = ["AddPartitionsToTxn", "AddOffsetsToTxn", "TxnOffsetCommit", "EndTxn", "Produce", "FindCoordinator:group"]
 RETRIABLE = {"AddPartitionsToTxn": [15, 16, 14, 51], "AddOffsetsToTxn": [15, 16, 14, 51], "TxnOffsetCommit": [15, 16, 14],
              "EndTxn": [15, 16, 14, 51], "Produce": [6, 7]}
 FATAL = {"AddPartitionsToTxn": [47, 53], "AddOffsetsToTxn": [47, 53], "TxnOffsetCommit": [47, 53], "EndTxn": [47, 53],
          "Produce": [47, 45]}
-ABORTABLE = {"AddOffsetsToTxn": [30], "TxnOffsetCommit": [30], "Produce": [10]}   # topic authorization: the "sendU" call
+ABORTABLE = {"AddOffsetsToTxn": [30], "TxnOffsetCommit": [30], "Produce": [10], "FindCoordinator:group": [30]}   # topic authorization: the "sendU" call
 
 
 def api_sequences(maxlen, alphabet=API):
@@ -157,8 +158,10 @@ def seq_scenario(seq, seed, fault=None, tail=()):
     if "sendU" in seq or "sendU" in tail:
         sc["auth"] = ["u"]
         sc["cls"] = "api-abortable"
+    sc["strict"] = fault is None and "auth" not in sc
     if fault:
         api, nth, code = fault
+        sc["strict"] = code not in (47, 53, 45, 29, 30, 10)
         sc["faults"] = dict(budget=0, script=[[api, nth, "error", code]])
         sc["cls"] = "api-" + ("fatal" if code in (47, 53, 45) else "abortable" if code in (29, 30, 10) else "retriable")
     return sc
@@ -184,6 +187,11 @@ def c16_scenarios(rng, *, exhaustive_len, sampled, faulted):
     for _ in range(sampled):
         n = rng.randrange(exhaustive_len + 1, 7)
         scs.append(seq_scenario([rng.choice(API) for _ in range(n)], len(scs)))
+    # the abortable-error state x every pair of following calls (incl. stray begin / sends / exits) x commit | abort
+    for x in API:
+        for y in API:
+            for end in ("commit", "abort"):
+                scs.append(seq_scenario(["begin", "send0", "sendU", x, y, end], len(scs), None, ["abort", "begin", "send1", "commit"]))
     faults = fault_choices()
     legal_bodies = ["send0", "send1", "offsets"]
     for k in range(faulted):
@@ -230,10 +238,15 @@ def classify(sc, trace, v):
         k = v["bad_l"] - 2
         ev = trace[k] if 0 <= k < len(trace) else {}
         if v["bad_name"] == "ProduceOnlyAfterAdded" and ev.get("e") == "BrokerApply":
-            refused = [e for e in trace[:k] if e["e"] == "AddPartitionsReply" and e.get("code") == 29 and ev["tp"] in e.get("tps", [])]
-            aborted = any(e["e"] == "TState" and e.get("to") == "ABORTABLE_ERROR" and e.get("ok") for e in trace[:k])
-            if refused and aborted:
-                return "inv:ProduceOnlyAfterAdded:refused-with-unauthorized-topic"
+            # open finding C07-unregistered-write, recognised by its history: inside the current transaction an abortable
+            # error was raised (error_transaction() emptied the pending set, un-muting the partition) and the coordinator
+            # never acknowledged this partition
+            begins = [i for i, e in enumerate(trace[:k]) if e["e"] == "TState" and e.get("to") == "IN_TRANSACTION" and e.get("ok")]
+            since = begins[-1] if begins else 0
+            aborted = any(e["e"] == "TState" and e.get("to") == "ABORTABLE_ERROR" and e.get("ok") for e in trace[since:k])
+            acked = any(e["e"] == "AddPartitionsReply" and e.get("code") == 0 and ev["tp"] in e.get("tps", []) for e in trace[since:k])
+            if aborted and not acked:
+                return "inv:ProduceOnlyAfterAdded:unmuted-by-abortable-error"
         if v["bad_name"] == "CommitAfterFailedSend":
             errs = sorted({e.get("err", "?") for e in trace[:k + 1] if e["e"] == "Resolved" and e.get("k") == "err"})
             return "inv:CommitAfterFailedSend:" + "+".join(errs)
